@@ -7,6 +7,10 @@ LS2 == {Unsigned(w) : w \in 0..2} \cup {Signed(w) : w \in 1..2}
 (* mutant used to show that NoOverflow is not vacuous: addition without the carry bit *)
 BadShiftLeftShape(a, n) == a     \* a constant left shift that forgets to widen the result
 LSp == {Unsigned(0), Unsigned(2), Signed(2)}
+(* wide leaves with sampled valuations: raw inputs of 8 bits taken from corner values *)
+LSw == {Unsigned(0), Signed(1), Unsigned(3), Unsigned(5), Signed(5), Unsigned(7), Signed(8), Unsigned(8)}
+WideRaws == {0, 1, 85, 127, 128, 170, 200, 255}
+WideVals == {r1 + 256 * r2 + 1 : r1 \in WideRaws, r2 \in WideRaws}
 LSc =={Unsigned(0), Unsigned(2), Signed(2), Unsigned(3), Signed(3)}
 CS == {[v |-> 0, sh |-> Unsigned(0)], [v |-> 5, sh |-> Unsigned(3)], [v |-> -3, sh |-> Signed(3)],
        [v |-> 1, sh |-> Unsigned(1)], [v |-> -1, sh |-> Signed(1)]}
